@@ -148,6 +148,7 @@ type Machine struct {
 
 	choiceLog map[string]string // name#n -> value (for replay files)
 	onNontrivial func()
+	constCache   map[*ssa.Const]Value
 	arenaLoadFn  func(*PtrV) Value
 	arenaStoreFn func(*PtrV, Value)
 	fuel      int
@@ -173,12 +174,13 @@ type Results struct {
 	Samples     []string
 	Nontrivial  int
 	Funcs       map[string]int
+	FuncPtr     map[*ssa.Function]int
 	Stubs       map[string]int
 	MaxDepth    int
 }
 
 func NewResults() *Results {
-	return &Results{AssertsHit: map[string]int{}, AssertsTriv: map[string]int{}, Covers: map[string]int{}, Funcs: map[string]int{}, Stubs: map[string]int{}}
+	return &Results{AssertsHit: map[string]int{}, AssertsTriv: map[string]int{}, Covers: map[string]int{}, Funcs: map[string]int{}, FuncPtr: map[*ssa.Function]int{}, Stubs: map[string]int{}}
 }
 
 func (m *Machine) top() *Frame { return m.stack[len(m.stack)-1] }
@@ -337,7 +339,7 @@ func (m *Machine) pushCall(fn *ssa.Function, args []Value, free []Value, callIns
 	if len(m.stack) > m.R.MaxDepth {
 		m.R.MaxDepth = len(m.stack)
 	}
-	m.R.Funcs[fn.String()]++
+	m.R.FuncPtr[fn]++
 	return fr
 }
 
@@ -422,6 +424,18 @@ func (m *Machine) get(fr *Frame, v ssa.Value) Value {
 }
 
 func (m *Machine) constVal(c *ssa.Const) Value {
+	if m.constCache != nil {
+		if v, ok := m.constCache[c]; ok {
+			return v
+		}
+		v := m.constVal0(c)
+		m.constCache[c] = v
+		return v
+	}
+	return m.constVal0(c)
+}
+
+func (m *Machine) constVal0(c *ssa.Const) Value {
 	t := c.Type()
 	if c.Value == nil {
 		return m.zero(t)
@@ -740,14 +754,22 @@ func (m *Machine) binop(op token.Token, x, y Value, xt, yt types.Type) Value {
 			return f.FMul(a, b)
 		case token.QUO:
 			return f.FDiv(a, b)
-		case token.LSS:
-			return f.FLt(a, b)
-		case token.LEQ:
-			return f.FLe(a, b)
-		case token.GTR:
-			return f.FLt(b, a)
-		case token.GEQ:
-			return f.FLe(b, a)
+		case token.LSS, token.LEQ, token.GTR, token.GEQ:
+			l, r := a, b
+			if op == token.GTR || op == token.GEQ {
+				l, r = b, a
+			}
+			fop := term.OFLt
+			if op == token.LEQ || op == token.GEQ {
+				fop = term.OFLe
+			}
+			if rw := m.fpMonoRewrite(fop, l, r); rw != nil {
+				return rw
+			}
+			if fop == term.OFLt {
+				return f.FLt(l, r)
+			}
+			return f.FLe(l, r)
 		}
 		unsupported("float op %s", op)
 	}
